@@ -234,7 +234,6 @@ theorem piAt_inj {P : List Nat} (hnd : P.Nodup) {x y : Nat} (hx : x < P.length) 
 /-! ### the routing pass -/
 theorem routePass_spec {free : Nat → Bool} {n : Nat} {ops : List Op} {moves : List Move} {d d' : PD}
     {s : St} (hm : d.model.WF) (hw : OpsWF n ops) (hlen : d.placement.length = n)
-    (hnb : ∀ m ∈ moves, m.noPamBarrier = true)
     (h : routePass free n ops moves d = some (s, d')) :
     ∃ sg, connectivity d = some sg ∧ sg.isFullyConnected = true ∧
       run free sg (init n ops) moves = some s ∧ Inv free sg n ops s ∧ s.rem = [] ∧
@@ -256,7 +255,7 @@ theorem routePass_spec {free : Nat → Bool} {n : Nat} {ops : List Op} {moves : 
         · rename_i hfin
           simp only [Bool.and_eq_true, List.isEmpty_iff] at hfin
           obtain ⟨_, _, _, hsn, hsw, _⟩ := connectivity_spec hm h1 hc'
-          have hinv := inv_run hsw (hsn.trans hlen) hw moves (inv_init free sg n ops) hnb h2
+          have hinv := inv_run hsw hw moves (inv_init free sg n ops) h2
           have hpair := Option.some.inj h
           have e1 : s1 = s := congrArg Prod.fst hpair
           have e2 := congrArg Prod.snd hpair
